@@ -973,7 +973,11 @@ def stream_docs(ctx, reqs, metas):
                 ctx.fail('oracle:doc', 'docstring(raw=True) differs from inspect.getdoc of the executed object',
                          case, expected=want, observed={'raw': raw}, how=how)
             # docstring() is that text preceded by the signature line(s)
-            lines_ok = whole == ('\n'.join(sigs) + ('\n\n' if sigs and raw and '\n'.join(sigs) else '') + raw)
+            head = '\n'.join(sigs)
+            lines_ok = whole.startswith(head) and whole.endswith(raw) and len(whole) >= len(head) + len(raw)
+            if lines_ok:
+                between = whole[len(head):len(whole) - len(raw)]
+                lines_ok = between.strip('\n') == '' and (bool(between) or not (head and raw))
             if not lines_ok:
                 ctx.fail('oracle:doc', 'docstring() is not the raw text preceded by the signature line(s)',
                          case, expected={'signatures': sigs, 'raw': raw}, observed={'docstring': whole}, how=how)
